@@ -1308,6 +1308,18 @@ class Repository:
             finally:
                 await chunk_producer
 
+            # Files that were not touched by any chunk (that is, there were
+            # no chunks at all, because every file is empty)
+            for _, file in state.files:
+                if file.path not in snapshot_files:
+                    snapshot_files[file.path] = {
+                        'path': file.path,
+                        'chunks': [],
+                        'digest': file.digest,
+                        'metadata': file.metadata,
+                    }
+                    finished_tracker.update()
+
         now = datetime.utcnow()
         snapshot_data = {
             'utc_timestamp': str(now),
@@ -1561,6 +1573,15 @@ class Repository:
         )
 
         with finished_tracker, bytes_tracker:
+            # Files without chunk references are empty, nothing to download for them
+            for file_path, digests in files_digests.items():
+                if not digests:
+                    restore_path, metadata, _ = files_metadata.pop(file_path)
+                    self._write_file_part(restore_path, b'', 0)
+                    os.truncate(restore_path, 0)
+                    self.restore_metadata(restore_path, metadata)
+                    finished_tracker.update()
+
             await asyncio.gather(
                 *(
                     loop.run_in_executor(loader, _download_chunk, *x)
